@@ -1,6 +1,7 @@
 import PySMT.Proofs.SimpMain
 import PySMT.Proofs.SimpPerm
 import PySMT.Proofs.SimpOrder
+import PySMT.Proofs.SimpTotal
 /-!
 # C01 — Simplification preserves type and meaning
 
@@ -9,6 +10,29 @@ type and, under every interpretation of the free symbols (and every non-empty
 quantification domain), the same value as the original. It never mentions a symbol that is
 not free in the original.* Interpretations under which an Int/Real division by zero is
 evaluated are left unconstrained (`div0 I t`).
+
+What "every interpretation" means here (read this before the theorems):
+* `Interp.dom : Ty → List Val` — a quantification domain is a **finite list**; the theorems hold for
+  every non-empty *finite* domain per sort. The standard structure with all integers / reals as the
+  range of a quantifier is **not** an `Interp`: nothing is claimed for it (the quantifier rules use the
+  domain only through its non-emptiness, so the step to a `Prop`-valued domain is small, but it is
+  not done).
+* array-sorted symbols range over **finitely supported** arrays (store chains on a constant array,
+  `Core/Val.lean`), not over arbitrary functions.
+* the division-by-zero proviso has two proved readings. (a) `div0 I t = false`: no `div` node of `t`
+  has a divisor that evaluates to zero — *also in branches that are not taken* (`div0` is the
+  disjunction over all arguments of `ite`/`and`/`or`), so `ite(r = 0, 0, 1/r)` at `r = 0` is excluded;
+  then value and proviso are preserved for **every** choice of the division-by-zero functions
+  (`simp_sound_partial`, `simp_div0_partial`). (b) no condition on the term at all, but the
+  division-by-zero functions map 0 to 0 (`Interp.Tot`): `simp_sound_total_partial`. The only rule
+  that is unsound under the total SMT-LIB reading `x / 0 = f(x)` with arbitrary `f` is
+  `0 / x ↦ 0` (`walk_div`), which needs exactly `f(0) = 0`; (b) covers guarded divisions.
+* orders the implementation does not determine: arguments of `and`/`or` results (Python `set`),
+  of `times` results (sorted by node id) and the bound variables of quantifier results
+  (`ForAll(set, body)`) are covered by `simp_any_order_partial`. **Not covered**: the order of the
+  (key, value) pairs of an array-value result (`FormulaManager.Array` sorts them by `id()`; the model
+  keeps dictionary order and the correspondence check compares modulo that order, but there is no
+  Lean lemma that `eval` of an array value is invariant under permuting its pairs).
 
 Model: `PySMT.Simplifier.simp` (Impl/Simplifier.lean), one Lean rule per `walk_*` method
 (Impl/Simp/*.lean), tied to `/repo` on every run by the correspondence check of
@@ -50,13 +74,32 @@ theorem simp_wf_partial (t : Term) (τ : Ty) (hwf : t.wf = true) (hfr : inFrag t
   (simp_spec t hwf hfr τ hty).1.2
 
 /-- same value under every well-formed interpretation (every sort-respecting valuation of the
-free symbols and functions, every non-empty quantification domain, every choice of the
-division-by-zero functions) that evaluates no division by zero in `t`
-(partial: fragment `inFrag`) -/
+free symbols and functions over finitely supported arrays, every non-empty *finite* quantification
+domain, every choice of the division-by-zero functions) under which no `div` node of `t` — taken or
+not — has a zero divisor (partial: fragment `inFrag`) -/
 theorem simp_sound_partial (t : Term) (τ : Ty) (hwf : t.wf = true) (hfr : inFrag t = true)
     (hty : t.typeOf = some τ) (I : Interp) (hI : I.WF) (hd : div0 I t = false) :
     eval I (simp t) = eval I t :=
   ((simp_spec t hwf hfr τ hty).2.1 I hI hd).1
+
+/-- **no hypothesis on divisions by zero**: under every well-formed interpretation whose
+division-by-zero functions map 0 to 0 the simplified formula has the value of the original, whatever
+divisions by zero `t` contains (guarded, unguarded, in taken or untaken branches). The deviation of the
+simplifier from the total SMT-LIB semantics is exactly the rule `0 / x ↦ 0`.
+(partial: fragment `inFrag`) -/
+theorem simp_sound_total_partial (t : Term) (τ : Ty) (hwf : t.wf = true) (hfr : inFrag t = true)
+    (hty : t.typeOf = some τ) (I : Interp) (hI : I.WF) (h0r : I.div0r 0 = 0) (h0i : I.div0i 0 = 0) :
+    eval I (simp t) = eval I t :=
+  simpWith_total ruleOf ruleOf_ok t hwf hfr τ hty I hI ⟨h0r, h0i⟩
+
+/-- the two readings of the proviso combined: the value is preserved as soon as no `div` node has
+a zero divisor **or** the division-by-zero functions map 0 to 0 (partial: fragment `inFrag`) -/
+theorem simp_sound_combined_partial (t : Term) (τ : Ty) (hwf : t.wf = true) (hfr : inFrag t = true)
+    (hty : t.typeOf = some τ) (I : Interp) (hI : I.WF)
+    (h : div0 I t = false ∨ (I.div0r 0 = 0 ∧ I.div0i 0 = 0)) : eval I (simp t) = eval I t := by
+  rcases h with hd | ⟨h0r, h0i⟩
+  · exact ((simp_spec t hwf hfr τ hty).2.1 I hI hd).1
+  · exact simpWith_total ruleOf ruleOf_ok t hwf hfr τ hty I hI ⟨h0r, h0i⟩
 
 /-- simplification never introduces an evaluated division by zero (partial: fragment `inFrag`) -/
 theorem simp_div0_partial (t : Term) (τ : Ty) (hwf : t.wf = true) (hfr : inFrag t = true)
@@ -72,7 +115,8 @@ theorem simp_fv_subset_partial (t : Term) (τ : Ty) (hwf : t.wf = true) (hfr : i
 /-- every entry of the rule table is locally correct **for arbitrary well-formed simplified
 arguments**. The implementation's argument order of products depends on node ids; since this
 holds for every argument list, the implementation's own sequence of rule applications (checked
-call by call by K1) is covered, not only the order `simp` fixes. -/
+call by call by K1) is covered, not only the order `simp` fixes. `RuleOK` has four components:
+type, sound (under `div0 = false`), total (under `Interp.Tot`, no proviso), fv. -/
 theorem rule_ok (op : Op) (e : Entry) (h : ruleOf op = some e) : RuleOK op e := ruleOf_ok op e h
 
 /-- the assembled statement for any rule table whose entries are locally correct: adding a rule
@@ -85,17 +129,24 @@ theorem simpWith_correct (tbl : Op → Option Entry) (hok : ∀ op e, tbl op = s
     (∀ s ∈ (simpWith tbl t).fv, s ∈ t.fv) :=
   simpWith_spec tbl hok t hwf hfr τ hty
 
-/-- **whatever order the implementation gives** the arguments of the `and`/`or`/`times` nodes
-its rules return (set iteration order, node-id order): for every re-ordering `ρ` applied after
-every rule application, type, well-formedness, value (under the proviso) and free symbols are
-preserved. `ρ = id` is `simp`. (partial: fragment `inFrag`) -/
+/-- **whatever order the implementation gives** the arguments of the `and`/`or`/`times` nodes and
+the bound variables of the quantifier nodes its rules return (set iteration order, node-id order;
+`PermTop`): for every re-ordering `ρ` applied after every rule application, type, well-formedness,
+value (under either reading of the proviso) and free symbols are preserved. `ρ = id` is `simp`.
+Not covered: the order of the pairs of an array-value result (see header).
+(partial: fragment `inFrag`) -/
 theorem simp_any_order_partial (ρ : Term → Term) (hρ : ∀ r, PermTop r (ρ r))
     (t : Term) (τ : Ty) (hwf : t.wf = true) (hfr : inFrag t = true) (hty : t.typeOf = some τ) :
     ((simpWithR ruleOf ρ t).typeOf = some τ ∧ (simpWithR ruleOf ρ t).wf = true) ∧
     (∀ I : Interp, I.WF → div0 I t = false →
       eval I (simpWithR ruleOf ρ t) = eval I t ∧ div0 I (simpWithR ruleOf ρ t) = false) ∧
-    (∀ s ∈ (simpWithR ruleOf ρ t).fv, s ∈ t.fv) :=
+    (∀ s ∈ (simpWithR ruleOf ρ t).fv, s ∈ t.fv) ∧
+    (∀ I : Interp, I.WF → I.Tot → eval I (simpWithR ruleOf ρ t) = eval I t) :=
   simpWithR_spec ruleOf ruleOf_ok ρ hρ t hwf hfr τ hty
+
+/-- quantifier evaluation does not depend on the order of the bound variables (repetitions allowed) -/
+theorem perm_qvars (all : Bool) (k : Interp → Bool) (vs vs' : List Sym) (h : vs.Perm vs') (I : Interp) :
+    I.quant all vs k = I.quant all vs' k := quant_perm all k h I
 
 /-- type soundness of the reference semantics on well-formed terms (all 66 operators) -/
 theorem eval_sort (t : Term) (τ : Ty) (hwf : t.wf = true) (hty : t.typeOf = some τ) (I : Interp) (hI : I.WF) :
@@ -220,8 +271,64 @@ example : t4.wf = true ∧ inFrag t4 = true ∧ t4.typeOf = some .int := by
   rcases ha with rfl | rfl
   · exact frag_node (e := keep .strConst) rfl rfl (by simp)
   · exact fs
-/-- a well-formed interpretation exists (so the quantifier over interpretations is not empty) -/
-example : ∃ I : Interp, I.WF :=
+/-- `b + 0` over 4-bit vectors: a bit-vector term on which `walk_bv_add` fires -/
+private def bv4 : Term := Term.var "b" (.bv 4)
+private def t5 : Term := .node .bvAdd [bv4, Term.bvc 0 4] (.ints [4])
+
+example : t5.wf = true ∧ inFrag t5 = true ∧ t5.typeOf = some (.bv 4) := by
+  obtain ⟨wb, tb, fb⟩ : bv4.wf = true ∧ bv4.typeOf = some (.bv 4) ∧ inFrag bv4 = true := var_ok "b" (.bv 4)
+  have wc : (Term.bvc 0 4).wf = true := BVRules.wf_bvc (by decide)
+  have tc := BVRules.typeOf_bvc 0 4
+  have t5ty : t5.typeOf = some (.bv 4) := by
+    rw [t5, typeOf_node]; simp only [List.map_cons, List.map_nil, tc]
+    rw [show bv4.typeOf = _ from tb]; rfl
+  refine ⟨wf_mk' (by intro a ha; simp at ha; rcases ha with rfl | rfl <;> assumption) rfl t5ty, ?_, t5ty⟩
+  refine frag_node (e := BVRules.walkBvAdd) rfl rfl ?_
+  intro a ha; simp at ha
+  rcases ha with rfl | rfl
+  · exact fb
+  · exact frag_node (e := keep .bvConst) rfl rfl (by simp)
+
+/-- `∃ z. x / z = y` : a quantified formula containing a division whose divisor is the bound
+variable (so `div0` holds under every interpretation whose Int domain contains 0, and only
+`simp_sound_total_partial` speaks about it there) -/
+private def t6 : Term :=
+  .node .exists_ [.node .equals [.node .div [x, Term.var "z" .int] .none, y] .none] (.qvars [Sym.var "z" .int])
+
+example : t6.wf = true ∧ inFrag t6 = true ∧ t6.typeOf = some .bool := by
+  obtain ⟨wx, tx, fx⟩ : x.wf = true ∧ x.typeOf = some .int ∧ inFrag x = true := var_ok "x" .int
+  obtain ⟨wy, ty, fy⟩ : y.wf = true ∧ y.typeOf = some .int ∧ inFrag y = true := var_ok "y" .int
+  obtain ⟨wz, tz, fz⟩ := var_ok "z" .int
+  have td : (Term.node .div [x, Term.var "z" .int] .none).typeOf = some .int := by
+    rw [typeOf_node]; simp only [List.map_cons, List.map_nil, tz]; rw [show x.typeOf = _ from tx]; rfl
+  have wd : (Term.node .div [x, Term.var "z" .int] .none).wf = true :=
+    wf_mk' (by intro a ha; simp at ha; rcases ha with rfl | rfl <;> assumption) rfl td
+  have te : (Term.node .equals [.node .div [x, Term.var "z" .int] .none, y] .none).typeOf = some .bool := by
+    rw [typeOf_node]; simp only [List.map_cons, List.map_nil, td]; rw [show y.typeOf = _ from ty]; rfl
+  have we : (Term.node .equals [.node .div [x, Term.var "z" .int] .none, y] .none).wf = true :=
+    wf_mk' (by intro a ha; simp at ha; rcases ha with rfl | rfl <;> assumption) rfl te
+  have t6ty : t6.typeOf = some .bool := by
+    rw [t6, typeOf_node]; simp only [List.map_cons, List.map_nil, te]; rfl
+  refine ⟨wf_mk' (by intro a ha; simp at ha; subst ha; exact we) rfl t6ty, ?_, t6ty⟩
+  refine frag_node (e := BoolRules.walkExists) rfl rfl ?_
+  intro a ha; simp at ha; subst ha
+  refine frag_node (e := { rule := BoolRules.walkEquals, guard := equalsGuard }) rfl ?_ ?_
+  · simp only [List.map_cons, List.map_nil, td]; rfl
+  · intro a ha; simp at ha
+    rcases ha with rfl | rfl
+    · refine frag_node (e := ArithRules.walkDiv) rfl rfl ?_
+      intro a ha; simp at ha
+      rcases ha with rfl | rfl <;> assumption
+    · exact fy
+
+/-- a re-ordering that is not the identity is admissible: swapping the two bound variables of a
+quantifier (the case of `ForAll(set, body)`) -/
+example (b : Term) (u v : Sym) :
+    PermTop (.node .forall_ [b] (.qvars [u, v])) (.node .forall_ [b] (.qvars [v, u])) :=
+  Or.inr (Or.inr ⟨.forall_, b, [u, v], [v, u], rfl, rfl, rfl, List.Perm.swap v u []⟩)
+
+/-- a well-formed interpretation whose division-by-zero functions map 0 to 0 exists -/
+example : ∃ I : Interp, I.WF ∧ I.div0r 0 = 0 ∧ I.div0i 0 = 0 :=
   ⟨{ sym := fun s => s.ret.defaultVal, fn := fun f _ => f.ret.defaultVal, dom := fun t => [t.defaultVal],
      div0r := fun _ => 0, div0i := fun _ => 0 },
    by
@@ -232,7 +339,8 @@ example : ∃ I : Interp, I.WF :=
       | bv w => simp [Ty.defaultVal, Val.hasSort]
       | array i e _ ihe => simp [Ty.defaultVal, Val.hasSort, ihe]
       | custom n => simp [Ty.defaultVal, Val.hasSort]
-    exact ⟨fun s => hdef _, fun f _ => hdef _, fun t => by simp, fun t v hv => by simp at hv; subst hv; exact hdef t⟩⟩
+    exact ⟨⟨fun s => hdef _, fun f _ => hdef _, fun t => by simp, fun t v hv => by simp at hv; subst hv; exact hdef t⟩,
+      rfl, rfl⟩⟩
 
 end Examples
 end PySMT.C01
